@@ -555,9 +555,13 @@ class Impl(object):
         elif k == "reply":
             self.bc_transport(ev[1]).deliver(simnet.frame(self.response_bytes(ev[2], ev[3])))
         elif k == "timer":
+            before = c.correlation_id
             self.clock.fire_next()
-            if any(kd == 2 for kd, _r in self.ops):       # a retry of _load_topic_partitions takes a fresh correlation id
-                self.rid_kind.setdefault(c.correlation_id, "meta")
+            # every correlation id taken while DelayedCalls run belongs to a retry of _load_topic_partitions (several may come
+            # due together): its request is a metadata request
+            n = (c.correlation_id - before) % 2 ** 31
+            for j in range(1, min(n, 64) + 1):
+                self.rid_kind.setdefault((before + j) % 2 ** 31, "meta")
         elif k == "bootok":
             self.boots[ev[1]].accept()
         elif k == "bootfail":
